@@ -15,6 +15,11 @@ import (
 	"github.com/glowlabs-org/gca-backend/glow"
 	"github.com/glowlabs-org/gca-backend/server"
 
+	"verifh/pool"
+	"verifh/shim/vmrand"
+	"verifh/shim/vnet"
+	"verifh/shim/vos"
+	"verifh/shim/vrand"
 	"verifh/shim/vsync"
 	"verifh/shim/vtime"
 )
@@ -72,11 +77,26 @@ func must(err error) {
 	}
 }
 
-// waitServerParked is the quiescence barrier after start-up: the four
-// background loops of a test-mode server are parked on virtual timers.
-func waitServerParked(n int) error {
-	for _, d := range []time.Duration{sc.ReportMigrationFrequency, sc.WattTimeFrequency, sc.WattTimeWeekFrequency} {
-		if !vtime.WaitPending(d, n, 10*time.Second) {
+// serverLoopPeriods are the sleep periods of the background loops of a
+// test-mode server.
+func serverLoopPeriods() []time.Duration {
+	return []time.Duration{sc.ReportMigrationFrequency, sc.WattTimeFrequency, sc.WattTimeWeekFrequency}
+}
+
+func pendingCounts() []int {
+	var out []int
+	for _, d := range serverLoopPeriods() {
+		out = append(out, vtime.CountPending(d))
+	}
+	return out
+}
+
+// waitServerParked is the quiescence barrier after start-up: each background
+// loop of the new server has parked on a virtual timer (one more pending
+// entry per period than before the start).
+func waitServerParked(before []int) error {
+	for i, d := range serverLoopPeriods() {
+		if !vtime.WaitPending(d, before[i]+1, 10*time.Second) {
 			return fmt.Errorf("background loop with period %v did not park", d)
 		}
 	}
@@ -84,6 +104,20 @@ func waitServerParked(n int) error {
 }
 
 var liveServers int
+
+// resetGlobals puts every process-global seam into its initial state; every
+// job starts with it so that jobs are independent of worker history.
+func resetGlobals() {
+	glow.SetCurrentTimeslot(0)
+	vtime.SetOffset(0)
+	vtime.SetOnNow(nil)
+	vos.SetObserver(nil)
+	vos.ResetSteps()
+	vnet.SetDialer(nil)
+	vrand.SetInt(nil)
+	vrand.SetRead(nil)
+	vmrand.SetIntn(nil)
+}
 
 func newServerWorld(name string) (*srvWorld, error) {
 	dir := freshDir("srv")
@@ -93,6 +127,7 @@ func newServerWorld(name string) (*srvWorld, error) {
 }
 
 func (w *srvWorld) start() error {
+	before := pendingCounts()
 	s, err := server.NewGCAServer(w.Dir)
 	if err != nil {
 		return err
@@ -100,7 +135,7 @@ func (w *srvWorld) start() error {
 	w.S = s
 	w.open = true
 	liveServers++
-	return waitServerParked(liveServers)
+	return waitServerParked(before)
 }
 
 // Close shuts the server down (running its own invariant check first).
@@ -117,6 +152,7 @@ func (w *srvWorld) Close() (err error) {
 
 // Abandon forgets a server that cannot be closed (panicked under its lock).
 func (w *srvWorld) Abandon() {
+	pool.RequestRecycle()
 	if w.open {
 		w.open = false
 		liveServers--
@@ -171,4 +207,258 @@ func signedReport(id, ts uint32, power uint64, priv glow.PrivateKey) []byte {
 	r := glow.EquipmentReport{ShortID: id, Timeslot: ts, PowerOutput: power}
 	r.Signature = glow.Sign(r.SigningBytes(), priv)
 	return r.Serialize()
+}
+
+// ---- public observables ----
+
+// safely runs f and converts a panic into an error string.
+func safely(f func()) (panicked string) {
+	defer func() {
+		if r := recover(); r != nil {
+			buf := make([]byte, 8192)
+			n := runtimeStack(buf)
+			panicked = fmt.Sprintf("%v\n%s", r, buf[:n])
+		}
+	}()
+	f()
+	return ""
+}
+
+// syncRaw performs one TCP sync request against the real handler over an
+// in-memory connection and returns the raw reply bytes.
+func (w *srvWorld) syncRaw(req []byte) (reply []byte, panicked string) {
+	c1, c2 := netPipe()
+	done := make(chan string, 1)
+	go func() {
+		done <- safely(func() { w.S.VerifSyncConn(c2) })
+		c2.Close()
+	}()
+	if len(req) > 0 {
+		c1.Write(req)
+	}
+	if len(req) < 4 {
+		c1.Close() // half-sent request, then hang up
+		return nil, <-done
+	}
+	reply, _ = io.ReadAll(c1)
+	c1.Close()
+	return reply, <-done
+}
+
+type syncReply struct {
+	Refused   bool
+	Key       glow.PublicKey
+	Offset    uint32
+	Bitfield  [504]byte
+	Rest      []byte // server list / migration part
+	Timestamp uint64
+	Sig       glow.Signature
+	Signed    []byte
+}
+
+func parseSyncReply(b []byte) (*syncReply, error) {
+	if len(b) == 1 && b[0] == 0 {
+		return &syncReply{Refused: true}, nil
+	}
+	if len(b) < 2 {
+		return nil, fmt.Errorf("reply of %d bytes", len(b))
+	}
+	n := int(b[0]) | int(b[1])<<8
+	if n != len(b)-2 {
+		return nil, fmt.Errorf("length prefix %d but %d bytes follow", n, len(b)-2)
+	}
+	body := b[2:]
+	if len(body) < 32+4+504+8+64 {
+		return nil, fmt.Errorf("reply too short: %d", len(body))
+	}
+	r := &syncReply{}
+	copy(r.Key[:], body[:32])
+	r.Offset = uint32(body[32]) | uint32(body[33])<<8 | uint32(body[34])<<16 | uint32(body[35])<<24
+	copy(r.Bitfield[:], body[36:540])
+	r.Rest = body[540 : len(body)-72]
+	for i := 0; i < 8; i++ {
+		r.Timestamp |= uint64(body[len(body)-72+i]) << (8 * i)
+	}
+	copy(r.Sig[:], body[len(body)-64:])
+	r.Signed = body[:len(body)-64]
+	return r, nil
+}
+
+func idBytes(id uint32) []byte {
+	return []byte{byte(id), byte(id >> 8), byte(id >> 16), byte(id >> 24)}
+}
+
+type statsJSON struct {
+	Devices []struct {
+		PublicKey    glow.PublicKey
+		PowerOutputs []int64
+		ImpactRates  []float64
+	}
+	TimeslotOffset uint32
+	Signature      glow.Signature
+}
+
+func (w *srvWorld) stats(tso string) (int, *statsJSON, []byte) {
+	code, body := w.httpDo(http.MethodGet, "/api/v1/all-device-stats?timeslot_offset="+tso, nil)
+	if code != 200 {
+		return code, nil, body
+	}
+	var s statsJSON
+	if err := json.Unmarshal(body, &s); err != nil {
+		return -1, nil, body
+	}
+	return code, &s, body
+}
+
+func (w *srvWorld) recentReports(pk glow.PublicKey) (int, *server.RecentReportsResponse) {
+	code, body := w.httpDo(http.MethodGet, fmt.Sprintf("/api/v1/recent-reports?publicKey=%x", pk[:]), nil)
+	if code != 200 {
+		return code, nil
+	}
+	var r server.RecentReportsResponse
+	if err := json.Unmarshal(body, &r); err != nil {
+		return -1, nil
+	}
+	return code, &r
+}
+
+func (w *srvWorld) equipment() (int, map[uint32]glow.EquipmentAuthorization) {
+	code, body := w.httpDo(http.MethodGet, "/api/v1/equipment", nil)
+	if code != 200 {
+		return code, nil
+	}
+	var r server.EquipmentResponse
+	if err := json.Unmarshal(body, &r); err != nil {
+		return -1, nil
+	}
+	return code, r.EquipmentDetails
+}
+
+func (w *srvWorld) fileSize(name string) int64 {
+	fi, err := os.Stat(filepath.Join(w.Dir, name))
+	if err != nil {
+		return -1
+	}
+	return fi.Size()
+}
+
+// checkPublic compares every public observable with the model and returns a
+// description of the first disagreement.
+func (w *srvWorld) checkPublic(m *srvModel) (sig, what string) {
+	// equipment list
+	code, eq := w.equipment()
+	if code != 200 {
+		return "public/equipment-status", fmt.Sprintf("GET equipment -> %d", code)
+	}
+	if len(eq) != len(m.Devices) {
+		return "public/equipment-set", fmt.Sprintf("equipment list has %d devices, model %d", len(eq), len(m.Devices))
+	}
+	for id, ea := range m.Devices {
+		if got, ok := eq[id]; !ok || !bytes.Equal(refAuthBytes(got), refAuthBytes(ea)) {
+			return "public/equipment-set", fmt.Sprintf("equipment list entry for id %d differs from the accepted authorization", id)
+		}
+	}
+	ids := map[uint32]glow.PublicKey{}
+	for id, ea := range m.Devices {
+		ids[id] = ea.PublicKey
+	}
+	for id := range m.Bans {
+		ids[id] = glow.PublicKey{}
+	}
+	for id, pk := range ids {
+		_, live := m.Devices[id]
+		// TCP sync
+		raw, p := w.syncRaw(idBytes(id))
+		if p != "" {
+			return "public/sync-panic", p
+		}
+		rep, err := parseSyncReply(raw)
+		if err != nil {
+			return "public/sync-malformed", err.Error()
+		}
+		if !live {
+			if !rep.Refused {
+				return "public/sync-banned-served", fmt.Sprintf("sync for banned id %d is answered", id)
+			}
+			continue
+		}
+		if rep.Refused {
+			return "public/sync-refused", fmt.Sprintf("sync for authorized id %d refused", id)
+		}
+		if rep.Key != pk || rep.Offset != m.Offset {
+			return "public/sync-header", fmt.Sprintf("sync for id %d: key/offset %x/%d, model %x/%d", id, rep.Key[:4], rep.Offset, pk[:4], m.Offset)
+		}
+		if !glow.Verify(w.Srv.Pub, rep.Signed, rep.Sig) {
+			return "public/sync-signature", fmt.Sprintf("sync reply for id %d does not verify under the server key", id)
+		}
+		for i := 0; i < mWindow; i++ {
+			bit := rep.Bitfield[i/8]&(1<<(i%8)) != 0
+			want := m.Slots[id][m.Offset+uint32(i)].value() > 0
+			if bit != want {
+				return "public/sync-bitfield", fmt.Sprintf("sync bit %d for id %d is %v, model %v", i, id, bit, want)
+			}
+		}
+		// recent reports
+		code, rr := w.recentReports(pk)
+		if code != 200 {
+			return "public/recent-status", fmt.Sprintf("recent-reports for id %d -> %d", id, code)
+		}
+		for i := 0; i < mWindow; i++ {
+			want := m.Slots[id][m.Offset+uint32(i)].value()
+			if rr.Reports[i].PowerOutput != want {
+				return "public/recent-value", fmt.Sprintf("recent-reports slot %d of id %d has power %d, model %d", i, id, rr.Reports[i].PowerOutput, want)
+			}
+		}
+	}
+	// weekly statistics of both live weeks
+	for half := 0; half < 2; half++ {
+		tso := m.Offset + uint32(half)*mWeek
+		code, st, body := w.stats(fmt.Sprint(tso))
+		if code != 200 {
+			return "public/stats-status", fmt.Sprintf("stats for live week %d -> %d %s", tso, code, body)
+		}
+		if s, wh := compareWeek(st, m.liveWeek(half), tso, w.Srv.Pub); s != "" {
+			return "public/stats-" + s, wh
+		}
+	}
+	return "", ""
+}
+
+// compareWeek checks a served weekly record against the model's devices.
+func compareWeek(st *statsJSON, want map[glow.PublicKey]*weekDevice, tso uint32, srvKey glow.PublicKey) (string, string) {
+	if st.TimeslotOffset != tso {
+		return "offset", fmt.Sprintf("served record labelled %d, requested %d", st.TimeslotOffset, tso)
+	}
+	if len(st.Devices) != len(want) {
+		return "devices", fmt.Sprintf("week %d served with %d devices, model %d", tso, len(st.Devices), len(want))
+	}
+	rec := weekRecord{Offset: st.TimeslotOffset, Sig: st.Signature}
+	seen := map[glow.PublicKey]bool{}
+	for _, d := range st.Devices {
+		wd, ok := want[d.PublicKey]
+		if !ok || seen[d.PublicKey] {
+			return "devices", fmt.Sprintf("week %d lists unexpected or duplicate device %x", tso, d.PublicKey[:4])
+		}
+		seen[d.PublicKey] = true
+		if len(d.PowerOutputs) != mWeek || len(d.ImpactRates) != mWeek {
+			return "shape", "wrong number of slots"
+		}
+		var rd weekDevice
+		rd.Key = d.PublicKey
+		for i := 0; i < mWeek; i++ {
+			rd.Power[i] = uint64(d.PowerOutputs[i])
+			rd.Rate[i] = d.ImpactRates[i]
+			if rd.Power[i] != wd.Power[i] {
+				return "value", fmt.Sprintf("week %d device %x slot %d: served %d, model %d", tso, d.PublicKey[:4], i, d.PowerOutputs[i], int64(wd.Power[i]))
+			}
+			if rd.Rate[i] != wd.Rate[i] {
+				return "rate", fmt.Sprintf("week %d device %x slot %d: impact rate %v, model %v", tso, d.PublicKey[:4], i, rd.Rate[i], wd.Rate[i])
+			}
+		}
+		rec.Devices = append(rec.Devices, rd)
+	}
+	if !glow.Verify(srvKey, refWeekSigningBytes(rec), rec.Sig) {
+		return "signature", fmt.Sprintf("week %d does not verify under the server key over the documented layout", tso)
+	}
+	return "", ""
 }
